@@ -81,7 +81,7 @@ def run(ctx):
     args = [(t, rng.randrange(1 << 30), cap) for t in texts]
     lists = pmap(mutants_of, args)
     muts = [(t, k, m) for (t, _, _), l in zip(args, lists) for (k, m) in l]
-    ctx.rule("for every accepted program of the pool (" + progs.RULE + "): single-bracket deletions, duplications and kind swaps (all bracket positions up to %d per program) and injections of non-token text (stray characters, comments, lone quotes, foreign directives) at random token boundaries; plus all bracket strings of length <=%d in 5 contexts" % (cap, 5 if ctx.quick() else 8))
+    ctx.rule("for every accepted program of the pool (" + progs.RULE + "): single-bracket deletions, duplications and kind swaps (all bracket positions up to %d per program) and injections of non-token text (stray characters, comments, lone quotes, foreign directives) at random token boundaries; plus all bracket strings of length <=%d in 5 contexts; plus 8 forms of #line / linemarker directives followed on their line by 24 kinds of stray text (brackets, characters, comments, tokens) in 4 places" % (cap, 5 if ctx.quick() else 8))
     res = pmap(_rej, [m for _, _, m in muts])
     md = run_model([parse_req(m, "f.c") for _, _, m in muts]) if ctx.model_available else None
     keys = set()
@@ -106,6 +106,20 @@ def run(ctx):
             ctx.violation("unbalanced bracket string %r accepted in %r" % (s, text), {"kind": "text", "text": text, "mutation": "bracket-string"})
     ctx.count(len(cases), nontrivial_n=len(cases))
     ctx.extra["unbalanced_bracket_strings"] = len(bad)
+    # text on the line of a #line / linemarker directive, after what the directive grammar allows, is
+    # neither literal nor #pragma text: brackets, stray characters, comments, tokens there must be rejected
+    heads = ['# 7 "a.c"', '# 7 "a.c" 1', '#line 7 "a.c"', "#line 7", "# 7", '# 7 "a.c" 1 3 4', '#   12   "x y.h"  2', '#line 9 "q.h" 2 4']
+    junk = ["@", ")", "}", "[", "(", "]", "{", "/* c */", "// c", "`", "\\", "'", "x", "+", "1.5", ".", "int", "# 3", "#", "-1", "0x1", "1 @", '"a" )', ";"]
+    wrap = ["int a ;\n%s\nint b ;", "int f ( void ) {\n%s\n return ( 1 ) ;\n}", "%s\n", "struct S { int a ;\n%s\nint b ; } ;"]
+    dcases = [(w % (h + " " + j)) for h in heads for j in junk for w in wrap if not (j.startswith('"') and '"' not in h)]
+    dres = pmap(_rej, dcases)
+    dmd = run_model([parse_req(m, "f.c") for m in dcases]) if ctx.model_available else None
+    for i, (text, r) in enumerate(zip(dcases, dres)):
+        if not r:
+            ctx.violation("text after a #line / linemarker directive on its line is accepted: %r" % text, {"kind": "text", "text": text, "mutation": "directive-tail"})
+        elif dmd is not None and dmd[i].startswith("OK"):
+            ctx.violation("Lean parser model accepts a directive tail that the real parser rejects: %r" % text, {"kind": "text", "text": text, "mutation": "directive-tail"})
+    ctx.count(len(dcases), nontrivial_n=len(dcases))
 
 
 def _rej(m):
